@@ -75,10 +75,39 @@ def scenario(case):
     for m in d["modules"]:
         if offending is not None and offending not in contains[m["name"]]:
             out["others"][m["name"]] = try_export(b.modules[m["name"]])
+    # a *new* parent around every module that does not contain the offending one (a design sharing sub-modules)
+    out["new_parents"] = {}
+    for m in d["modules"]:
+        if offending is not None and offending not in contains[m["name"]]:
+            try:
+                out["new_parents"][m["name"]] = try_export(new_parent(b, d, m["name"]))
+            except Exception as ex:  # noqa
+                out["new_parents"][m["name"]] = {"raise": common.errstr(ex)}
     # an unrelated design
     u = build.build(case["unrelated"], "proc")
     out["unrelated"] = try_export(u.top)
     return out
+
+
+def new_parent(b, d, name):
+    """A fresh module instantiating module `name` of the built design, every port tied to a fresh signal / bundle instance."""
+    mj = next(m for m in d["modules"] if m["name"] == name)
+    p = h.Module(name=f"NewParent_{name}")
+    conns = {}
+    for s in mj["sigs"]:
+        if s["port"]:
+            conns[s["n"]] = p.add(h.Signal(name=f"w_{s['n']}", width=s["w"]))
+    for bi in mj["bundles"]:
+        if bi["port"]:
+            conns[bi["n"]] = p.add(b.bundles[bi["of"]](), name=f"wb_{bi['n']}")
+    p.add(b.modules[name](**conns), name="child")
+    return p
+
+
+def fresh_new_parent(job):
+    d, name = job
+    b = build.build(d, "proc")
+    return try_export(new_parent(b, d, name))
 
 
 def contains_map(d):
@@ -181,6 +210,8 @@ def run(ctx):
     need[(json.dumps(unrelated), "Unrelated")] = (unrelated, "Unrelated")
     keys = list(need)
     fresh = dict(zip(keys, common.pmap_fresh(fresh_digest, [need[k] for k in keys])))
+    np_keys = sorted({(json.dumps(j["design"]), n) for j, r in zip(jobs, results) for n in r.get("new_parents", {})})
+    fresh_np = dict(zip(np_keys, common.pmap_fresh(fresh_new_parent, [(json.loads(k), n) for k, n in np_keys])))
     for j, r in zip(jobs, results):
         case = {"stream": "scenarios", "case": {k: v for k, v in j.items() if k != "unrelated"}}
         rep.count("scenarios", json.dumps(case))
@@ -208,6 +239,10 @@ def run(ctx):
             want = fresh[(dk, name)]
             if res != want:
                 rep.fail("pred", case, {"why": f"module {name}, which does not contain the offending module, no longer elaborates as in a fresh process", "got": res, "fresh": want})
+        for name, res in r.get("new_parents", {}).items():
+            want = fresh_np[(dk, name)]
+            if res != want:
+                rep.fail("pred", case, {"why": f"a new parent of {name} (which does not contain the offending module) does not elaborate as in a fresh process", "got": res, "fresh": want})
         if r["unrelated"] != fresh[(json.dumps(unrelated), "Unrelated")]:
             rep.fail("pred", case, {"why": "an unrelated design is affected", "got": r["unrelated"]})
     # generators
